@@ -187,6 +187,7 @@ harnesses! {
     e2n_c09_battery [native 0] => battery::c09_battery;
     e2n_c10_pointers [native 0] => battery::c10_pointers;
     e2n_c01_struct_roundtrip [native 0] => battery::c01_battery;
+    e2n_c04_fixed_tx [native 0] => battery::c04_fixed_tx;
     c11_enc_base [stub 4] => c11::enc_base;
     c11_enc_enterprise [stub 4] => c11::enc_enterprise;
     c11_enc_reward [stub 4] => c11::enc_reward;
